@@ -33,7 +33,17 @@ def real(x, ab):
     return ab[0] + (ab[1] - ab[0]) * x / LAT
 
 
-def test_trapezoid(rep, combo, glob):
+_SHARED = {}
+
+
+def shared(key, mk):
+    """one grid object per (family, global box) reused along the whole sequence of sub-boxes, as the adaptive strategies do"""
+    if key not in _SHARED:
+        _SHARED[key] = mk()
+    return _SHARED[key]
+
+
+def test_trapezoid(rep, combo, glob, reuse=True):
     from sparseSpACE.Grid import TrapezoidalGrid
     D = len(combo)
     bnd = bool(combo[0]['bnd'])
@@ -51,7 +61,7 @@ def test_trapezoid(rep, combo, glob):
     def fail(clause, what, **kw):
         rep.violation(clause, dict(sig), dict(case, **kw), what='trapezoid %s: %s' % (case, what))
     try:
-        grid = TrapezoidalGrid(a=a, b=b, boundary=bnd)
+        grid = shared(('trapezoid', bnd, tuple(a), tuple(b)), lambda: TrapezoidalGrid(a=a, b=b, boundary=bnd)) if reuse else TrapezoidalGrid(a=a, b=b, boundary=bnd)
         with impl.quiet():
             grid.setCurrentArea(start, end, lv)
             pts, w = grid.get_points_and_weights()
@@ -63,7 +73,7 @@ def test_trapezoid(rep, combo, glob):
     exp_w = [float(np.prod(v)) for v in itertools.product(*[[x * (glob[d][1] - glob[d][0]) / LAT / 2 for x in st['w2']] for d, st in enumerate(combo)])]
     pts = [tuple(float(x) for x in p) for p in pts]
     w = [float(x) for x in (w if len(pts) else [])]
-    rep.count(1, key=json.dumps(case))
+    rep.count(1, key=json.dumps(case) + str(reuse))
     if int(np.prod(n_ann)) != len(pts):
         fail('C08_CountMatches', 'announces %s points, returns %d' % (n_ann, len(pts)))
     if not all(all(start[d] - 1e-12 <= p[d] <= end[d] + 1e-12 for d in range(D)) for p in pts):
@@ -90,15 +100,15 @@ def polyfun(D, degs):
     return P()
 
 
-def test_family(rep, name, mk, degree_of, lv, start, end, a, b):
+def test_family(rep, name, mk, degree_of, lv, start, end, a, b, reuse=True):
     D = len(lv)
     case = {'family': name, 'levelvec': lv, 'start': list(start), 'end': list(end)}
-    sig = {'family': name}
+    sig = {'family': name, 'reused_grid_object': reuse}
 
     def fail(clause, what, **kw):
-        rep.violation(clause, dict(sig, **kw.pop('sig', {})), dict(case, **kw), what='%s level %s on %s-%s: %s' % (name, lv, list(start), list(end), what))
+        rep.violation(clause, dict(sig, **kw.pop('sig', {})), dict(case, **kw), what='%s level %s on %s-%s (grid object reused: %s): %s' % (name, lv, list(start), list(end), reuse, what))
     try:
-        grid = mk(a, b)
+        grid = shared((name, tuple(a), tuple(b)), lambda: mk(a, b)) if reuse else mk(a, b)
         with impl.quiet(), impl.watchdog(120):
             grid.setCurrentArea(np.array(start), np.array(end), lv)
             n_ann = [int(x) for x in grid.levelToNumPoints(lv)]
@@ -113,7 +123,7 @@ def test_family(rep, name, mk, degree_of, lv, start, end, a, b):
         rep.residual('family_' + name, False)
         fail('C08_NoException', 'raised %r' % ex, exception=repr(ex), sig={'exception': type(ex).__name__})
         return
-    rep.count(1, key=json.dumps(case))
+    rep.count(1, key=json.dumps(case) + str(reuse))
     ok = True
     if int(np.prod(n_ann)) != len(pts):
         ok = False
@@ -155,7 +165,8 @@ def run(tier, seed):
         for st in byb[bnd]:
             for g in GLOBAL:
                 test_trapezoid(rep, [st], [g])
-                n += 1
+                test_trapezoid(rep, [st], [g], reuse=False)
+                n += 2
         pairs = list(itertools.product(byb[bnd], repeat=2))
         if tier == 'quick':
             pairs = rng.sample(pairs, min(len(pairs), 500))
@@ -173,6 +184,8 @@ def run(tier, seed):
         for st in sts:
             for g in GLOBAL[:1] if name == 'leja' else GLOBAL:
                 test_family(rep, name, mk, degree_of, [int(st['lvl'])], [real(st['s'], g)], [real(st['e'], g)], np.array([g[0]]), np.array([g[1]]))
+                if rng.random() < 0.3:
+                    test_family(rep, name, mk, degree_of, [int(st['lvl'])], [real(st['s'], g)], [real(st['e'], g)], np.array([g[0]]), np.array([g[1]]), reuse=False)
         pairs = [tuple(rng.choice(sts) for _ in range(2)) for _ in range(25 if tier == 'quick' else 200)]
         for c2 in pairs:
             gl = [GLOBAL[0], GLOBAL[1]]
